@@ -21,6 +21,7 @@ mod cfggen;
 mod c12;
 mod c16;
 mod c20; // C20
+mod c15;
 
 use std::io::{BufRead, Write};
 
@@ -39,6 +40,7 @@ fn main() {
             let out = std::io::stdout();
             let mut out = std::io::BufWriter::new(out.lock());
             let lines = match prop {
+                "C15" => c15::gen(tier, seed),
                 "C20" => c20::gen(tier, seed), // C20
                 "C16" => c16::gen(tier, seed),
                 "C12" => c12::gen(tier, seed),
@@ -75,6 +77,7 @@ fn main() {
                 let l2 = line.clone();
                 let p = prop.to_string();
                 let res = std::panic::catch_unwind(move || match p.as_str() {
+                    "C15" => c15::eval(&l2),
                     "C20" => c20::eval(&l2), // C20
                     "C16" => c16::eval(&l2),
                     "C12" => c12::eval(&l2),
